@@ -171,7 +171,7 @@ func main() {
 		}
 		var keys []string
 		for _, k := range sortedKeys(prog.CS.Funcs) {
-			if strings.HasSuffix(k, pos[0]) && !prog.CS.Funcs[k].External {
+			if strings.Contains(k, pos[0]) && !prog.CS.Funcs[k].External && !prog.CS.Funcs[k].Trusted && !isIfaceMethodKey(prog, k) {
 				keys = append(keys, k)
 			}
 		}
